@@ -25,7 +25,7 @@ ASSUMPTIONS = ["lattices are dyadic so the closed-box predicate is decidable exa
 L5 = [-3.0, -0.5, 0.0, 2.0, 7.25]
 RB = [-2.0, 0.0, 1.5, 3.0]
 PV = [-3.0, -2.25, -2.0, -1.75, -0.25, 0.0, 0.25, 1.25, 1.5, 1.75, 2.75, 3.0, 3.25, 4.0]
-FORMS = ["1d", "2d", "2dF", "view", "int", "int_e", "series", "extra", "0d", "nan"]
+FORMS = ["1d", "2d", "2dF", "view", "int", "int_e", "series", "extra", "0d", "nan", "far", "tiny", "f32"]
 SREG = [[0.0, 10.0, -2.0, -1.0], [-4.0, -4.0, 1.0, 3.0], [1024.0, 1024.5, -8.0, 8.0], [0.0, 0.0, 0.0, 0.0]]
 MV = [-3.0, -1.0, 0.0, 2.0, float("nan")]
 
@@ -178,6 +178,23 @@ def run(case, rec):
                     break
             rec.check(bad is None, "inside 0-d: %r" % (bad,))
             rec.cls("inside/0d")
+            return
+        if form in ("far", "tiny", "f32"):
+            # the same lattice and region at projected-coordinate magnitudes (+7 460 000: exact), scaled by 2^-30, or as float32 arrays
+            # (the lattice is exactly representable in float32)
+            if form == "far":
+                ea, na = ea + 7460000.0, na - 3500000.0
+                reg_ = [w + 7460000.0, e + 7460000.0, s - 3500000.0, n - 3500000.0]
+            elif form == "tiny":
+                ea, na = ea * 2.0 ** -30, na * 2.0 ** -30
+                reg_ = [v * 2.0 ** -30 for v in case["region"]]
+            else:
+                ea, na = ea.astype(np.float32), na.astype(np.float32)
+                reg_ = case["region"]
+            got = call(rec, vd.inside, (ea, na), reg_)
+            ok_ = not raised(got) and np.asarray(got).dtype == bool and np.array_equal(np.asarray(got), want)
+            rec.check(ok_, "inside (%s form) differs from the closed-box predicate: region %r" % (form, reg_))
+            rec.cls("inside/%s" % form)
             return
         if form == "int":
             # integer-valued subset only
